@@ -40,3 +40,5 @@ pub fn c32_substring_null() {
     let r = UAString::null().substring(kani::any(), kani::any());
     assert!(r.is_err(), "C32.substring.null_has_no_substring");
 }
+
+// Variant::range_of on a 3-element Int32 array with a symbolic range exceeded 400 s under Kani: not under contract.
